@@ -484,7 +484,7 @@ def probe_consts():
 
 def emit(rows, fmts=('FmtOther', 'FmtOther')):
     s = '(* GENERATED on every run by tools/tr_c20_mir2c.py from mir2c/mir2c.c of the checked tree. *)\n'
-    s += 'From Coq Require Import ZArith List String.\nFrom MirV Require Import Mir.Opcode Mir.CExpr C20.ConstPrint.\n'
+    s += 'From Coq Require Import ZArith List String.\nFrom MirV Require Import Mir.Opcode Mir.DocSpec Mir.CExpr C20.ConstPrint C20.AddrPrint.\n'
     s += 'Import ListNotations.\nLocal Open Scope Z_scope.\nLocal Open Scope string_scope.\n\n'
     s += 'Definition mir2c_table : list (opcode * list cstmt) :=\n  [ '
     s += '\n  ; '.join('(%s, [%s])' % (o, '; '.join(coq_stmt2(x) for x in st)) for o, st in rows) + ' ].\n\n'
@@ -499,6 +499,8 @@ def main():
     os.makedirs(os.path.dirname(out), exist_ok=True)
     fmts = const_formats(preprocess(vlib.REPO))
     txt = emit(rows, fmts)
+    import tr_c20_addr          # memory operands: address forms, displacement format, object types (out_op)
+    txt += tr_c20_addr.main(NOTES)[0]
     old = open(out).read() if os.path.exists(out) else None
     if old != txt:
         open(out + '.tmp%d' % os.getpid(), 'w').write(txt)
